@@ -313,3 +313,67 @@ pub proof fn lemma_isum_small_items(s: Seq<int>, b: int)
         }
     }
 }
+
+// ---- splicing: old = P + M + S, new = P + N + S ----------------------------------------------------
+/// what the middle part contributes to a sum over consecutive pairs
+pub open spec fn mid_p(p: Seq<NodeIdx>, m: Seq<NodeIdx>, s: Seq<NodeIdx>, g: spec_fn(NodeIdx, NodeIdx) -> int) -> int {
+    if m.len() == 0 { junction(p, s, g) } else { junction(p, m, g) + psum(m, g) + junction(m, s, g) }
+}
+pub proof fn lemma_psum_3(p: Seq<NodeIdx>, m: Seq<NodeIdx>, s: Seq<NodeIdx>, g: spec_fn(NodeIdx, NodeIdx) -> int)
+    ensures psum(p + m + s, g) == psum(p, g) + mid_p(p, m, s, g) + psum(s, g),
+{
+    if m.len() == 0 {
+        assert(p + m + s =~= p + s);
+        lemma_psum_append(p, s, g);
+    } else {
+        assert(p + m + s =~= p + (m + s));
+        lemma_psum_append(p, m + s, g);
+        lemma_psum_append(m, s, g);
+        assert((m + s).first() == m.first());
+    }
+}
+pub proof fn lemma_nsum_3(p: Seq<NodeIdx>, m: Seq<NodeIdx>, s: Seq<NodeIdx>, f: spec_fn(NodeIdx) -> int)
+    ensures nsum(p + m + s, f) == nsum(p, f) + nsum(m, f) + nsum(s, f),
+{
+    lemma_nsum_append(p + m, s, f);
+    lemma_nsum_append(p, m, f);
+}
+/// "small or infinite": an encoded distance sum
+pub open spec fn dsmall(x: int) -> bool { x >= 0 && (x < DBIG ==> x <= 0x2000_0000_0000_0000) }
+pub proof fn lemma_dist_add_enc(x: int, y: int)
+    requires dsmall(x), dsmall(y),
+    ensures dist_add(ddec(x), ddec(y)) == ddec(x + y),
+        ddec(x) is Distance && ddec(y) is Distance ==> ddec(x)->Distance_0 + ddec(y)->Distance_0 <= u64::MAX,
+        x + y >= 0, x + y < DBIG ==> x + y <= 0x4000_0000_0000_0000,
+{
+}
+/// a leg is infinitely long exactly when it touches Nowhere
+pub proof fn lemma_leg_inf(net: &Network, a: NodeIdx, b: NodeIdx)
+    requires net.wf(), net.has(a), net.has(b),
+    ensures
+        net.leg_dist(a, b) == DBIG <==> (net.sp_node(a).sp_end_location() is Nowhere || net.sp_node(b).sp_start_location() is Nowhere),
+        net.leg_dist(a, b) != DBIG ==> 0 <= net.leg_dist(a, b) <= 0x100_0000_0000,
+{
+    lemma_leg_facts(net, a, b);
+    let l1 = net.sp_node(a).sp_end_location(); let l2 = net.sp_node(b).sp_start_location();
+    lemma_node_facts(net, a); lemma_node_facts(net, b);
+    if l1 is Station && l2 is Station {
+        assert(net.locations.stations@.contains_key(l1->Station_0) && net.locations.stations@.contains_key(l2->Station_0));
+    }
+}
+/// legs between activities are finite, so is their sum
+pub proof fn lemma_psum_dist_activities(net: &Network, m: Seq<NodeIdx>)
+    requires net.wf(), all_in_net(net, m), no_depot(net, m), len_ok(m),
+    ensures 0 <= psum(m, net.f_leg_dist()) <= 0x2000_0000_0000_0000,
+{
+    let l = legs(m, net.f_leg_dist());
+    assert forall|i: int| 0 <= i < l.len() implies 0 <= #[trigger] l[i] <= 0x100_0000_0000 by {
+        assert(net.has(m[i]) && net.has(m[i + 1]));
+        assert(net.sp_node(m[i]).sp_is_activity() && net.sp_node(m[i + 1]).sp_is_activity());
+        lemma_node_facts(net, m[i]); lemma_node_facts(net, m[i + 1]);
+        lemma_leg_inf(net, m[i], m[i + 1]);
+    }
+    lemma_isum_bounds(l, 0, 0x100_0000_0000);
+    let a = l.len() as int;
+    assert(0x100_0000_0000 * a <= 0x2000_0000_0000_0000) by (nonlinear_arith) requires 0 <= a <= 0x4_0004;
+}
